@@ -198,6 +198,22 @@ def sg_enum(prog: Program) -> RuleResult:
         "a class reachable through two bases (diamond D(B, C)) is listed twice - no de-duplicating construct lies between "
         "__subclasses__() and the enumeration loop - so each of its instances is returned twice by a domain-less variable",
     )
+    # the class hierarchy grows while the program runs (a module imported later, a class defined in a function): the subclasses are read
+    # from the classes every time, not from a memo of an earlier answer - whoever clears such a memo (a new graph, clear()) does not run
+    # when a class is defined
+    memo = None
+    if rs.is_lru_cache or rs.is_cached_property or any(d.split(".")[-1].lower() in ("cache", "lru_cache", "cached", "memoize", "memoized", "cachedmethod") for d in rs.decorators):
+        memo = "a caching decorator " + str(rs.decorators)
+    else:
+        for x in walk_local(rs.node):
+            if isinstance(x, (ast.Subscript, ast.Call)) and isinstance(x, ast.Subscript) and isinstance(x.value, ast.Name) and x.value.id in rs.module.globals_ and isinstance(x.ctx, ast.Load):
+                memo = f"the module-level table {x.value.id}"
+            if isinstance(x, ast.Call) and call_name(x) in ("get", "setdefault") and isinstance(x.func, ast.Attribute) and isinstance(x.func.value, ast.Name) and x.func.value.id in rs.module.globals_:
+                memo = f"the module-level table {x.func.value.id}"
+    r.check(memo is None, "recursive_subclasses#read-from-the-classes-every-time", site(rs), ", ".join(rs.decorators) or "no decorator",
+            "the subclasses are computed from __subclasses__() at every call",
+            f"the subclass enumeration answers from {memo}: a Symbol subclass defined (or imported) after an ancestor was first enumerated is not among the ancestor's "
+            "subclasses until something clears the memo, so let(Ancestor, None) misses its live instances")
     # what is handed out is the referent of a weak reference: it may be gone by the time its turn comes (the enumeration is lazy)
     emitted = []
     for x in walk_local(f.node):
@@ -292,16 +308,82 @@ def sg_evaltime(prog: Program) -> RuleResult:
     return r
 
 
+def _domain_delivers_each_identity_once(prog) -> Optional[str]:
+    """The range of a domain-less variable reaches the user through the caching iterator of the variable's domain. When that
+    iterator hands out nothing but what it reads back from its identity-keyed cache (every pulled element is stored under its
+    `id_` and no yield delivers the pulled element itself), an instance the registry enumerates twice is delivered once.
+    Returns the site of that iterator, or None when a pulled element can reach the consumer directly."""
+    from .c03 import _shared_sources, _cache_stores, _cache_fields, _yields_in
+    from ..cfg import CFG
+
+    found = None
+    for c, fld, f0, s0, adv in _shared_sources(prog):
+        for g, x in adv:
+            if not g.is_generator or g.name != "__iter__":
+                continue
+            cfg = CFG(g.node)
+            stores = _cache_stores(cfg, fld)
+            keyed = [m for m in stores if isinstance(m.stmt, ast.Assign) and any(
+                isinstance(t, ast.Subscript) and isinstance(t.slice, ast.Attribute) and t.slice.attr == "id_" for t in m.stmt.targets)]
+            if not keyed or len(keyed) != len(stores):
+                return None
+            cache_fields = _cache_fields(stores)
+            from_cache = set()
+            for m in cfg.nodes:
+                if m.stmt is None:
+                    continue
+                pairs = [(m.stmt.iter, m.stmt.target)] if m.kind == "for" else [(m.stmt.value, t) for t in m.stmt.targets] if isinstance(m.stmt, ast.Assign) else []
+                for val, tgt in pairs:
+                    if any(isinstance(z, ast.Attribute) and is_self_attr(z) and z.attr in cache_fields for z in ast.walk(val)):
+                        from_cache |= {z.id for z in ast.walk(tgt) if isinstance(z, ast.Name)}
+            pulled = x.target.id if isinstance(x, ast.For) and isinstance(x.target, ast.Name) else None
+            xn = cfg.node_of(x)
+            if pulled is None and xn is not None and isinstance(cfg.nodes[xn].stmt, ast.Assign) and len(cfg.nodes[xn].stmt.targets) == 1 and isinstance(cfg.nodes[xn].stmt.targets[0], ast.Name):
+                pulled = cfg.nodes[xn].stmt.targets[0].id
+            if pulled is None or pulled in from_cache and not isinstance(x, ast.For):
+                # the local of the pulled element is also a loop variable over the cache: a yield of it is only a replay when the
+                # cache loop redefines it first - decided by reachability below
+                pass
+            for m in cfg.nodes:
+                if m.stmt is None or m.kind != "stmt":
+                    continue
+                for p in cfg._own_parts(m):
+                    for y in _yields_in(p):
+                        if y.value is None:
+                            continue
+                        names = {z.id for z in ast.walk(y.value) if isinstance(z, ast.Name)}
+                        reads_cache = any(isinstance(z, ast.Attribute) and is_self_attr(z) and z.attr in cache_fields for z in ast.walk(y.value))
+                        if not (reads_cache or names & from_cache):
+                            return None
+                        # a yield of the pulled element itself: reachable from the pull without passing a redefinition by a cache loop
+                        if pulled in names and xn is not None:
+                            redefs = {k.id for k in cfg.nodes if k.id != xn and k.stmt is not None and k.kind == "for" and any(
+                                isinstance(z, ast.Name) and z.id == pulled for z in ast.walk(k.stmt.target))}
+                            if cfg.path_avoiding(xn, m.id, redefs) is not None:
+                                return None
+            found = site(g)
+    return found
+
+
 def _idkey(prog):
-    # 'each once': an index entry lost to a recycled id makes the next ensure_wrapped_instance register the instance a second time
+    # 'each once': an index entry lost to a recycled id makes the next ensure_wrapped_instance register the instance a second time.
+    # That reaches the range of a variable only if the domain iterator can deliver one identity twice.
     from .c14 import idkey
 
+    where = _domain_delivers_each_identity_once(prog)
+    if where is not None:
+        r = RuleResult("IDKEY", "an instance registered twice cannot appear twice in the range", floor=1)
+        r.ok("HashedIterable.__iter__#each-identity-once", where, "", "the domain iterator delivers only what it reads back from its identity-keyed cache: an instance the registry "
+             "enumerates twice is delivered once (the id()-keyed index is C14 / C20's obligation, where a lost entry misplaces relations and leaks)")
+        return r
     return idkey(prog)
 
 
 def run(prog: Program, tier: str) -> List[RuleResult]:
-    from .c03 import domain_cache
+    from .c03 import domain_cache, live_iter
 
     # the census reaches the variable through the caching iterator: an instance dropped from the cache is missing from the range
     return [sg_register(prog), sg_enum(prog), sg_sweep(prog, census_only=True), sg_evaltime(prog), domain_cache(prog),
-            user_truth(prog, ["entity_query_language.symbol_graph"], 3), _idkey(prog)]
+            user_truth(prog, ["entity_query_language.symbol_graph"], 3), _idkey(prog),
+            # the enumeration is consumed lazily: a sweep between two of its steps must not shift the list under it (a live instance skipped)
+            live_iter(prog)]
